@@ -413,6 +413,332 @@ class FieldsInSlice(Task):
         ctx.oblige("post.names-in-the-order-of-the-requested-components", got == exp, "P", note=f"{got} vs {exp}")
 
 
+class PlaneCoordinates(Task):
+    """slice_plane_coordinates: x_grid[i] and y_grid[j] are the cell-centre coordinates of the finest selected level along the
+    two in-plane axes, geo_low + (i + 1/2) dx of THAT level and axis, as many as that level has cells (unbounded: level limit,
+    grid sizes, geometry symbolic; reals for floats)."""
+    reach = "U"
+    qual = MM + "slice_plane_coordinates"
+
+    def __init__(self, prop, cn):
+        self.prop, self.cn = prop, cn
+        self.name = f"slice_plane_coordinates[normal={cn}]"
+
+    def setup(self, ex):
+        ctx = ex.ctx
+        cn = self.cn
+        cx, cy = [d for d in range(3) if d != cn]
+        L, lim = z3.Ints("L lim")
+        ctx.assume(z3.And(lim >= 0, lim <= L))
+        DX, N = z3.Function("DX", I, I, R), z3.Function("N", I, I, I)
+        glo = [z3.Real(f"glo{d}") for d in range(3)]
+        ghi = [z3.Real(f"ghi{d}") for d in range(3)]
+        for d in range(3):
+            ctx.assume(z3.And(DX(lim, d) > 0, N(lim, d) >= 1, ghi[d] - glo[d] == to_real(N(lim, d)) * DX(lim, d)))
+        ctx.ghost["linstep_hints"] = [DX(lim, cx), DX(lim, cy)]
+        self_ = Record("amr_kitchen.mandoline.mandoline.Mandoline", cx=cx, cy=cy, cn=cn, pos=z3.Real("pos"), limit_level=lim,
+                       geo_low=list(glo), geo_high=list(ghi), dx=SymSeq(L + 1, lambda l: [DX(to_z3(l), d) for d in range(3)]),
+                       grid_sizes=SymSeq(L + 1, lambda l: Vec([N(to_z3(l), d) for d in range(3)], "array")))
+        return {"self": self_, "args": [], "cx": cx, "cy": cy, "lim": lim, "DX": DX, "N": N, "glo": glo}
+
+    def post(self, ex, inp, out):
+        ctx = ex.ctx
+        ctx.oblige("raises-nothing", out.kind == "ret", "P", note=str(out.exc) if out.kind != "ret" else "")
+        if out.kind != "ret":
+            return
+        v = out.value
+        ok = isinstance(v, tuple) and len(v) == 2 and all(isinstance(a, NDArray) and a.ndim == 1 for a in v)
+        ctx.oblige("post.two-coordinate-vectors", ok, "P")
+        if not ok:
+            return
+        lim, DX, N, glo = inp["lim"], inp["DX"], inp["N"], inp["glo"]
+        i = ctx.fresh("i")
+        for nm, a, ax in (("x", v[0], inp["cx"]), ("y", v[1], inp["cy"])):
+            ctx.oblige(f"post.{nm}-has-one-entry-per-cell-of-the-finest-selected-level", to_z3(a.shape[0]) == N(lim, ax), "P")
+            ctx.oblige(f"post.{nm}[i]-is-the-cell-centre", z3.Implies(z3.And(i >= 0, i < N(lim, ax)),
+                                                                      to_z3(a.elem((i,))) == glo[ax] + DX(lim, ax) / 2 + to_real(i) * DX(lim, ax)), "P")
+
+
+class FormatArrayOutput(Task):
+    """format_array_output: the array of the t-th requested field is stored under ITS name (fields_in_slice order), 'grid_level'
+    holds the last array when requested, and x / y / time / slice_pos / slice_normal / dx are the plane coordinates, the
+    plotfile time, the position, the normal's name and the in-plane cell size.  Real code on bounded skeletons."""
+    reach = "S"
+    qual = MM + "format_array_output"
+    inline = (MM + "fields_in_slice",)
+
+    def __init__(self, prop, fidxs, cn):
+        self.prop, self.fidxs, self.cn = prop, list(fidxs), cn
+        self.name = f"format_array_output[fidxs={self.fidxs},normal={cn}]"
+
+    def setup(self, ex):
+        names = ["alpha", "beta", "gamma"]
+        nreal = len([k for k in self.fidxs if k is not None])
+        arrays = [Opaque(f"array{t}", "obj") for t in range(nreal)] + ([Opaque("levels", "obj")] if None in self.fidxs else [])
+        X = z3.Function("XG", I, R)
+        xg = NDArray([z3.Int("nx")], lambda ix: X(to_z3(ix[0])), "f8")
+        yg = Opaque("ygrid", "obj")
+        ex.ctx.assume(z3.Int("nx") >= 3)
+        self.contracts = {MM + "slice_plane_coordinates": lambda ex_, a, k: (xg, yg)}
+        time, pos = z3.Real("time"), z3.Real("pos")
+        self_ = Record("amr_kitchen.mandoline.mandoline.Mandoline", fields={n: k for k, n in enumerate(names)}, fidxs=list(self.fidxs),
+                       do_grid=None in self.fidxs, time=time, pos=pos, cn=self.cn, coordnames={0: "x", 1: "y", 2: "z", 3: "2D"})
+        return {"self": self_, "args": [list(arrays)], "arrays": arrays, "names": names, "xg": xg, "yg": yg, "X": X, "time": time, "pos": pos}
+
+    def post(self, ex, inp, out):
+        ctx = ex.ctx
+        ctx.oblige("raises-nothing", out.kind == "ret", "P", note=str(out.exc) if out.kind != "ret" else "")
+        if out.kind != "ret":
+            return
+        o = out.value
+        ok = isinstance(o, dict)
+        ctx.oblige("post.returns-a-dict", ok, "P")
+        if not ok:
+            return
+        real = [k for k in self.fidxs if k is not None]
+        for t, k in enumerate(real):
+            ctx.oblige(f"post.array-{t}-stored-under-its-own-name", o.get(inp["names"][k]) is inp["arrays"][t], "P", note=str(list(o)))
+        if None in self.fidxs:
+            ctx.oblige("post.grid_level-is-the-last-array", o.get("grid_level") is inp["arrays"][-1], "P")
+        else:
+            ctx.oblige("post.no-grid_level-unless-requested", "grid_level" not in o, "P")
+        ctx.oblige("post.no-other-field-names", set(o) <= {"x", "y", "time", "dx", "slice_normal", "slice_pos", "grid_level"} | {inp["names"][k] for k in real}, "P", note=str(list(o)))
+        ctx.oblige("post.coordinates", o.get("x") is inp["xg"] and o.get("y") is inp["yg"], "P")
+        ctx.oblige("post.time-position-normal", zand(veq(ctx, o.get("time"), inp["time"]), veq(ctx, o.get("slice_pos"), inp["pos"]),
+                                                     o.get("slice_normal") == {0: "x", 1: "y", 2: "z"}[self.cn]), "P")
+        ctx.oblige("post.dx-is-the-spacing-of-the-x-grid", veq(ctx, o.get("dx"), inp["X"](2) - inp["X"](1)), "P")
+
+
+def aux_tasks(prop):
+    return [PlaneCoordinates(prop, 0), PlaneCoordinates(prop, 2), FormatArrayOutput(prop, [2, 0], 1), FormatArrayOutput(prop, [1, None], 0),
+            FormatArrayOutput(prop, [None], 2)]
+
+
+def aux_canaries():
+    f = "amr_kitchen/mandoline/mandoline.py"
+    return [("plane coordinates: y grid built with the x cell size",
+             [(f, "                             - self.dx[self.limit_level][self.cy]/2,\n                             self.grid_sizes[self.limit_level][self.cy])",
+               "                             - self.dx[self.limit_level][self.cx]/2,\n                             self.grid_sizes[self.limit_level][self.cy])")],
+             ["slice_plane_coordinates[normal=0]"]),
+            ("format_array_output: grid_level taken from the first array",
+             [(f, "            output['grid_level'] = all_data[-1]", "            output['grid_level'] = all_data[0]")],
+             ["format_array_output[fidxs=[1, None],normal=0]"])]
+
+
+class SliceComposition(Task):
+    """Mandoline.slice with fformat='return' (3D), every callee by its contract: for each level 0..limit_level, in increasing
+    order, the workers are applied to exactly that level's inputs (compute_mpinput_3d(Lv)) and their results, in input order,
+    become plane_data[Lv]; the reduction gets that list and its result goes through format_array_output to the caller.  Level
+    limit and number of inputs per level unbounded; serial and pool mode."""
+    reach = "U"
+    qual = MM + "slice"
+
+    def __init__(self, prop, serial):
+        self.prop, self.serial = prop, serial
+        self.name = f"Mandoline.slice.composition[{'serial' if serial else 'pool'}]"
+
+    def setup(self, ex):
+        ctx = ex.ctx
+        L = z3.Int("L")
+        ctx.assume(L >= 0)
+        NI = z3.Function("NI", I, I)
+        t = z3.Int("t_")
+        ctx.assume(z3.ForAll([t], NI(t) >= 0))
+        IN, OUT = z3.Function("IN", I, I, I), z3.Function("OUTV", I, I)
+        got = {}
+        marker_all, marker_out = Opaque("all_data", "obj"), Opaque("formatted", "obj")
+
+        def mpinput(ex_, a, k):
+            lv = a[-1]
+            return SymSeq(NI(to_z3(lv)), lambda i: IN(to_z3(lv), to_z3(i)), "list")
+
+        def worker(ex_, a, k):
+            return OUT(to_z3(a[0]))
+
+        def reduce_(ex_, a, k):
+            got["plane_data"] = a[-1]
+            return marker_all
+
+        def fmt(ex_, a, k):
+            got["formatted_from"] = a[-1]
+            return marker_out
+        self.contracts = {MM + "compute_mpinput_3d": mpinput, "amr_kitchen.mandoline.blades.slice_box": worker,
+                          MM + "reducemp_data_ortho": reduce_, MM + "format_array_output": fmt,
+                          MM + "define_slicing_coordinates": lambda ex_, a, k: (1, 0, 2, a[-1])}
+        self_ = Record("amr_kitchen.mandoline.mandoline.Mandoline", ndims=3, cn=0, cx=1, cy=2, pos=z3.Real("pos0"), limit_level=L,
+                       serial=self.serial, v=0)
+
+        def template(ex_, fr, k, entry):
+            k3 = to_z3(k)
+            return {"plane_data": SymSeq(k3, lambda l: SymSeq(NI(to_z3(l)), lambda i: OUT(IN(to_z3(l), to_z3(i))), "list"), "list"),
+                    "__assume__": [z3.And(k3 >= 0, k3 <= L + 1)], "__assert__": [("in-range", k3 <= L + 1)]}
+        self.loopspecs = {(self.qual, 0): LoopSpec(template)}
+        return {"self": self_, "args": [], "kwargs": {"normal": 1, "pos": z3.Real("pos"), "fformat": "return"}, "got": got, "L": L, "NI": NI,
+                "IN": IN, "OUT": OUT, "marker_all": marker_all, "marker_out": marker_out}
+
+    def post(self, ex, inp, out):
+        ctx = ex.ctx
+        ctx.oblige("raises-nothing", out.kind == "ret", "P", note=str(out.exc) if out.kind != "ret" else "")
+        if out.kind != "ret":
+            return
+        got, L, NI, IN, OUT = inp["got"], inp["L"], inp["NI"], inp["IN"], inp["OUT"]
+        ctx.oblige("post.returns-the-formatted-reduction", out.value is inp["marker_out"] and got.get("formatted_from") is inp["marker_all"], "P")
+        pd = got.get("plane_data")
+        ok = isinstance(pd, SymSeq)
+        ctx.oblige("post.reduction-gets-the-per-level-lists", ok, "P")
+        if ok:
+            ctx.oblige("post.every-level-up-to-the-limit-with-its-own-inputs-in-order",
+                       veq(ctx, pd, SymSeq(L + 1, lambda l: SymSeq(NI(to_z3(l)), lambda i: OUT(IN(to_z3(l), to_z3(i))), "list"), "list")), "P")
+        me = inp["self"].attrs
+        ctx.oblige("post.slicing-coordinates-stored", zand(veq(ctx, me.get("cn"), 1), veq(ctx, me.get("cx"), 0), veq(ctx, me.get("cy"), 2),
+                                                          veq(ctx, me.get("pos"), z3.Real("pos"))), "P")
+
+
+def composition_tasks(prop, nd=3):
+    if nd == 2:
+        return [PlateCovering(prop, True), PlateCovering(prop, False)]
+    return [SliceComposition(prop, True), SliceComposition(prop, False)]
+
+
+def composition_canaries():
+    return [("Mandoline.slice: the finest selected level is not read",
+             [("amr_kitchen/mandoline/mandoline.py", "        plane_data = []\n        # For a given level\n        for Lv in range(self.limit_level + 1):",
+               "        plane_data = []\n        # For a given level\n        for Lv in range(self.limit_level):")],
+             ["Mandoline.slice.composition[serial]"])]
+
+
+class PlateCovering(Task):
+    """Mandoline.plate (2D plotfiles, fformat='return'), the whole method with its callees by contract and nested loop invariants:
+    every level 0..limit is read with its own inputs, and after the painting loops pixel (X, Y) of the (transposed) result holds
+    the value box (l, i) gives it, where (l, i) is the LAST box in (level, input) order whose footprint contains the pixel - i.e.
+    a box of the FINEST level covering the pixel; a pixel no box covers stays uninitialised (there is none in a well-formed
+    plotfile: level 0 covers the domain).  Unbounded in the level limit, the number of boxes per level, footprints and data; one
+    requested field."""
+    reach = "U"
+    qual = MM + "plate"
+
+    def __init__(self, prop, serial):
+        self.prop, self.serial = prop, serial
+        self.name = f"Mandoline.plate.covering-grid[{'serial' if serial else 'pool'}]"
+
+    def setup(self, ex):
+        ctx = ex.ctx
+        B = z3.BoolSort()
+        L, NX, NY = z3.Ints("L NX NY")
+        ctx.assume(z3.And(L >= 0, NX >= 1, NY >= 1))
+        NI = z3.Function("NI", I, I)
+        XA, XO, YA, YO = (z3.Function(n, I, I, I) for n in ("XA", "XO", "YA", "YO"))
+        DATA = z3.Function("DATA", I, I, I, I, R)
+        t, u = z3.Int("t_"), z3.Int("u_")
+        ctx.assume(z3.ForAll([t], NI(t) >= 0, patterns=[NI(t)]))
+        ctx.assume(z3.ForAll([t, u], z3.And(0 <= XA(t, u), XA(t, u) <= XO(t, u), XO(t, u) <= NX, 0 <= YA(t, u), YA(t, u) <= YO(t, u), YO(t, u) <= NY),
+                             patterns=[XA(t, u)]))
+        foot = lambda l, i, X, Y: z3.And(XA(l, i) <= X, X < XO(l, i), YA(l, i) <= Y, Y < YO(l, i))
+        val = lambda l, i, X, Y: DATA(l, i, X - XA(l, i), Y - YA(l, i))
+        # ghost: after all outputs of levels < k and outputs < j of level k: value, initialised bit, and who painted last
+        W, WI = z3.Function("W", I, I, I, I, R), z3.Function("WI", I, I, I, I, B)
+        WL, WJ = z3.Function("WL", I, I, I, I, I), z3.Function("WJ", I, I, I, I, I)
+        X_, Y_ = z3.Int("X_"), z3.Int("Y_")
+        before = lambda l, i, k, j: z3.Or(l < k, z3.And(l == k, i < j))
+        ctx.assume(z3.ForAll([X_, Y_], z3.And(z3.Not(WI(0, 0, X_, Y_)), WL(0, 0, X_, Y_) == -1), patterns=[WI(0, 0, X_, Y_)]))
+
+        def inv(k, j):
+            wl, wj = WL(k, j, X_, Y_), WJ(k, j, X_, Y_)
+            a = z3.ForAll([X_, Y_], z3.Implies(z3.And(X_ >= 0, X_ < NX, Y_ >= 0, Y_ < NY), z3.And(
+                WI(k, j, X_, Y_) == (wl >= 0),
+                z3.Or(wl == -1, z3.And(wl >= 0, wj >= 0, wj < NI(wl), before(wl, wj, k, j), foot(wl, wj, X_, Y_),
+                                       W(k, j, X_, Y_) == val(wl, wj, X_, Y_))))), patterns=[WL(k, j, X_, Y_)])
+            b = z3.ForAll([X_, Y_, t, u], z3.Implies(z3.And(X_ >= 0, X_ < NX, Y_ >= 0, Y_ < NY, t >= 0, u >= 0, u < NI(t), before(t, u, k, j),
+                                                            foot(t, u, X_, Y_)),
+                                                     z3.Or(t < wl, z3.And(t == wl, u <= wj))), patterns=[z3.MultiPattern(WL(k, j, X_, Y_), XA(t, u))])
+            return z3.And(a, b)
+
+        def step(k, j):      # painting output j of level k
+            f = foot(k, j, X_, Y_)
+            return z3.ForAll([X_, Y_], z3.And(W(k, j + 1, X_, Y_) == z3.If(f, val(k, j, X_, Y_), W(k, j, X_, Y_)),
+                                              WI(k, j + 1, X_, Y_) == z3.Or(f, WI(k, j, X_, Y_)),
+                                              WL(k, j + 1, X_, Y_) == z3.If(f, k, WL(k, j, X_, Y_)),
+                                              WJ(k, j + 1, X_, Y_) == z3.If(f, j, WJ(k, j, X_, Y_))), patterns=[WL(k, j + 1, X_, Y_)])
+
+        def nextlevel(k):    # (k+1, 0) is (k, NI(k))
+            return z3.ForAll([X_, Y_], z3.And(W(k + 1, 0, X_, Y_) == W(k, NI(k), X_, Y_), WI(k + 1, 0, X_, Y_) == WI(k, NI(k), X_, Y_),
+                                              WL(k + 1, 0, X_, Y_) == WL(k, NI(k), X_, Y_), WJ(k + 1, 0, X_, Y_) == WJ(k, NI(k), X_, Y_)),
+                             patterns=[WL(k + 1, 0, X_, Y_)])
+        arr = lambda k, j: NDArray([NX, NY], lambda ix: W(to_z3(k), to_z3(j), to_z3(ix[0]), to_z3(ix[1])), "f8",
+                                   init=lambda ix: WI(to_z3(k), to_z3(j), to_z3(ix[0]), to_z3(ix[1])))
+
+        def outd(l, i):
+            l, i = to_z3(l), to_z3(i)
+            return {"sx": [XA(l, i), XO(l, i)], "sy": [YA(l, i), YO(l, i)], "level": l, "header": HDR,
+                    "data": [NDArray([XO(l, i) - XA(l, i), YO(l, i) - YA(l, i)], lambda ix: DATA(l, i, to_z3(ix[0]), to_z3(ix[1])), "f8")]}
+        HDR = Opaque("hdr", "obj")
+        planes = lambda k: SymSeq(k, lambda l: SymSeq(NI(to_z3(l)), lambda i: outd(l, i), "list"), "list")
+
+        def norm(ex_, k, cands):
+            """a loop counter given as an expression with min/max in it (length of range(...)): the plain term it equals"""
+            k3 = to_z3(k)
+            if z3.is_int_value(k3) or (z3.is_const(k3) and k3.decl().kind() == z3.Z3_OP_UNINTERPRETED):
+                return k3
+            for c in cands:
+                if ex_.ctx.entails(k3 == c):
+                    return c
+            return k3
+
+        def t_read(ex_, fr, k, entry):
+            k3 = norm(ex_, k, [L + 1])
+            return {"plane_data": planes(k3), "__assume__": [z3.And(k3 >= 0, k3 <= L + 1)], "__assert__": [("in-range", k3 <= L + 1)]}
+
+        def t_levels(ex_, fr, k, entry):
+            k3 = norm(ex_, k, [L + 1])
+            return {"all_data": [arr(k3, 0)], "__assume__": [z3.And(k3 >= 0, k3 <= L + 1), inv(k3, 0), nextlevel(k3)],
+                    "__assert__": [("in-range", k3 <= L + 1), ("last-painter-invariant", inv(k3, 0))]}
+
+        def t_outputs(ex_, fr, j, entry):
+            k3 = to_z3(fr.vars["Lv"])
+            j3 = norm(ex_, j, [NI(k3)])
+            return {"all_data": [arr(k3, j3)], "__assume__": [z3.And(j3 >= 0, j3 <= NI(k3)), inv(k3, j3), step(k3, j3)],
+                    "__assert__": [("in-range", j3 <= NI(k3)), ("last-painter-invariant", inv(k3, j3))]}
+        self.loopspecs = {(self.qual, 0): LoopSpec(t_read), (self.qual, 1): LoopSpec(t_levels), (self.qual, 2): LoopSpec(t_outputs)}
+        from pyvc.libnp import np_empty
+        got = {}
+
+        def fmt(ex_, a, k):
+            got["all_data"] = a[-1]
+            return Opaque("formatted", "obj")
+        self.contracts = {MM + "compute_mpinput_2d": lambda ex_, a, k: SymSeq(NI(to_z3(a[-1])), lambda i: (to_z3(a[-1]), to_z3(i)), "list"),
+                          "amr_kitchen.mandoline.blades.plate_box": lambda ex_, a, k: outd(a[0][0], a[0][1]),
+                          MM + "limit_level_arr": lambda ex_, a, k: np_empty(ex_, [(NX, NY)], {}),
+                          MM + "format_array_output": fmt, MM + "default_output_path": lambda ex_, a, k: "out"}
+        self_ = Record("amr_kitchen.mandoline.mandoline.Mandoline", ndims=2, limit_level=L, serial=self.serial, v=0, nfidxs=1, do_grid=False)
+        return {"self": self_, "args": [], "kwargs": {"fformat": "return"}, "got": got, "L": L, "NX": NX, "NY": NY, "NI": NI, "foot": foot,
+                "val": val, "WL": WL, "WJ": WJ}
+
+    def post(self, ex, inp, out):
+        ctx = ex.ctx
+        ctx.oblige("raises-nothing", out.kind == "ret", "P", note=str(out.exc) if out.kind != "ret" else "")
+        if out.kind != "ret":
+            return
+        ad = inp["got"].get("all_data")
+        ok = isinstance(ad, list) and len(ad) == 1 and isinstance(ad[0], NDArray) and ad[0].ndim == 2
+        ctx.oblige("post.one-array-handed-to-the-formatter", ok, "P")
+        if not ok:
+            return
+        a = ad[0]
+        L, NX, NY, NI, foot, val, WL, WJ = (inp[k] for k in ("L", "NX", "NY", "NI", "foot", "val", "WL", "WJ"))
+        X, Y = ctx.fresh("X"), ctx.fresh("Y")
+        ctx.add_pc(z3.And(X >= 0, X < NX, Y >= 0, Y < NY))
+        ctx.oblige("post.transposed-shape", zand(to_z3(a.shape[0]) == NY, to_z3(a.shape[1]) == NX), "P")
+        e, init = a.snapshot()
+        ini = True if init is None else init((Y, X))
+        wl, wj = WL(L + 1, 0, X, Y), WJ(L + 1, 0, X, Y)
+        l, i = ctx.fresh("l"), ctx.fresh("i")
+        covered = z3.And(l >= 0, l <= L, i >= 0, i < NI(l), foot(l, i, X, Y))
+        ctx.oblige("post.a-covered-pixel-is-initialised-and-holds-the-value-of-a-box-covering-it",
+                   z3.Implies(covered, z3.And(to_z3(ini), wl >= 0, wl <= L, wj >= 0, wj < NI(wl), foot(wl, wj, X, Y), to_z3(e((Y, X))) == val(wl, wj, X, Y))), "P")
+        ctx.oblige("post.that-box-is-of-the-finest-level-covering-the-pixel", z3.Implies(covered, l <= wl), "P")
+        ctx.oblige("post.only-covered-pixels-are-initialised", z3.Implies(to_z3(ini), z3.And(wl >= 0, foot(wl, wj, X, Y))), "P")
+
+
 def names_tasks(prop):
     return [FieldsInSlice(prop, 3, [2, 0]), FieldsInSlice(prop, 3, [1, None]), FieldsInSlice(prop, 4, [3, 1, 2, None]), FieldsInSlice(prop, 2, [None])]
 
@@ -459,8 +785,8 @@ def kernel_canaries2(which=("ortho",)):
 
 
 def tasks(tier):
-    return parent_tasks("CXX") + parent_tasks("CXX", 2) + kernel_tasks2("CXX", ("ortho", "bylevel", "paint"))
+    return parent_tasks("CXX") + parent_tasks("CXX", 2) + kernel_tasks2("CXX", ("ortho", "bylevel", "paint")) + aux_tasks("CXX") + composition_tasks("CXX") + composition_tasks("CXX", 2)
 
 
 def canaries(tier):
-    return parent_canaries() + parent_canaries(2) + kernel_canaries2() + kernel_canaries2(("bylevel",)) + kernel_canaries2(("paint",))
+    return parent_canaries() + parent_canaries(2) + kernel_canaries2() + kernel_canaries2(("bylevel",)) + kernel_canaries2(("paint",)) + aux_canaries() + composition_canaries()
